@@ -268,6 +268,61 @@ def rule_codec_params(chk, prog):
     return n
 
 
+def rule_backlog_flow(chk, prog):
+    """K2-backlog: how many blocks are in flight is a matter of the schedule and of -Q / -j (and, by default, of the number
+    of CPUs).  It may decide when the submitting thread *waits*; it decides nothing about what is submitted.  No call
+    that hands a block to the pool (or seals one for it) is control-dependent on a test of the processor's backlog
+    counters -- directly or through a static predicate that reads them."""
+    BL = {"backlog", "max_backlog"}
+    PROC = "struct.sqfs_block_processor_t"
+
+    def reads_backlog(g, v, depth=0):
+        for x in [v] + list(backward_slice(v, phi_control=False, limit=200)):
+            if x.is_inst and x.op == "load":
+                q = strip_casts(x.ops[0])
+                if q.is_inst and q.op == "getelementptr" and q.field() and q.field()[0].startswith(PROC) and q.field()[1] in BL:
+                    return True
+            if x.is_inst and x.op == "call" and x.callee and depth < 2:
+                h = prog.fn(x.callee, g.unit)
+                if h is not None and not h.decl and h.unit is g.unit and (h.ret or "") == "i1":
+                    for r in h.build().rets():
+                        if r.ops and reads_backlog(h, r.ops[0], depth + 1):
+                            return True
+                    # predicates that branch on the counters and answer constants
+                    for b in h.blocks:
+                        t = b.term
+                        if t.op == "br" and len(t.x["succ"]) == 2 and reads_backlog(h, t.ops[0], depth + 1):
+                            return True
+        return False
+    # functions that hand a block to the pool
+    subs = set()
+    for f in prog.functions():
+        if not f.decl and any(slot_call(c) == ("struct.thread_pool_t", "submit") for c in f.build().calls()):
+            subs.add(f)
+    n = 0
+    for f in prog.functions():
+        if f.decl or not f.unit.src.startswith("lib/sqfs/src/block_processor/"):
+            continue
+        f.build()
+        for c in f.calls():
+            t = prog.fn(c.callee, f.unit) if c.callee else None
+            if t not in subs and slot_call(c) != ("struct.thread_pool_t", "submit"):
+                continue
+            n += 1
+            chk.analysed(f)
+            inst = "%s:%s@%d" % (f.name, norm_callee(c.callee) or "submit", c.line)
+            bad = None
+            for cond, outcome, br in f.guards_at(c.bb):
+                if reads_backlog(f, cond):
+                    bad = br
+            if bad is None:
+                chk.ok("K2-backlog", inst, c, "whether this block is handed over does not depend on the number of blocks in flight")
+            else:
+                chk.violation("K2-backlog", inst, bad, "a block is handed to the pool (or not) depending on the backlog counters: where "
+                              "blocks are cut then depends on -Q, -j, the number of CPUs and the speed of the workers")
+    return n
+
+
 def rule_c_env(chk, progs):
     seen = set()
     for tool, prog in progs.items():
@@ -437,6 +492,8 @@ def run(chk):
     rule_seqstamp(chk, prog)
     rule_codec_params(chk, prog)
     chk.floor("K3-params", 1)
+    rule_backlog_flow(chk, prog)
+    chk.floor("K2-backlog", 3)
     chk.floor("K11-seqstamp", 2)
     rule_c_env(chk, {"gensquashfs": prog, "tar2sqfs": load_program("tar2sqfs")})
     rule_d_comparators(chk, prog)
@@ -446,8 +503,13 @@ def run(chk):
     rule_f_fragcache(chk, prog)
     # every pool worker has a compressor copy and scratch buffer of its own (L8 of C09): two workers that share one
     # produce bytes that depend on which of them ran when
-    from .c09 import block_processor_rules
-    block_processor_rules(chk, prog)
+    # ... and the whole pool discipline (C09): items come back in the order of their tickets only if the ticket is what
+    # the hand-back compares; a lost wake-up or an unlocked access makes the result depend on the schedule
+    from . import c09
+    exp, ass = chk.explanation, list(chk.assumptions)
+    c09.run(chk)
+    chk.explanation = exp + " The pool discipline rules L1-L11 of C09 (lock state, condition variables, ticket discipline, tail appends, per-worker contexts) are run here as well."
+    chk.assumptions = ass
     chk.floor("L8", 1)
     chk.floor("K3-worker", 8)
     chk.floor("K2-seq", 10)
